@@ -26,6 +26,8 @@ DECIDED_MORE = ('Also: the reader premise of C04; every store of the upload wind
 DECIDED = DECIDED + ' ' + DECIDED_MORE
 DECIDED_R6 = ('Round 6: boundary cut out of the raw CONTENT_TYPE; parts routed by the presence of a file name alone; window position absolute or relative to the part start (rules compared as linear forms).')
 DECIDED = DECIDED + ' ' + DECIDED_R6
+DECIDED_R7 = ('Round 7: boundary length limit only above 70 characters; min(request, remainder) needs a positive request; C06 round-7 chunk-boundary clauses as premises.')
+DECIDED = DECIDED + ' ' + DECIDED_R7
 NOT_DECIDED = ('the round trip itself (equality of decoded values with what was encoded over unbounded field lists); non-ASCII '
                'handling; content types of uploads.')
 ASSUMPTIONS = ['io.BytesIO / file seek+read semantics', 'the multipart encoder under test is RFC 7578 conformant']
